@@ -451,3 +451,131 @@ def check_scaled(case):
         out.append(fail('C16.scaled.fixed_scale_equals_scaled_base_less_fix_costs', 'assets:ScaledAsset.setup_optim_problem', case, dict(case),
                         f'scaled {res.value} != base with capacities x s/S {res2.value} - s*rate*duration {s * case["rate"] * dur} = {want}'))
     return out
+
+
+# ------------------------------------------------------------------------------------------------ C10 / C04 / C03 histories
+def _hist_assets(eao, rng):
+    A, B = eao.assets.Node('A'), eao.assets.Node('B')
+    t0 = pd.Timestamp('2021-01-01')
+    caps = {'start': [t0, t0 + pd.Timedelta(10, 'h')], 'end': [t0 + pd.Timedelta(10, 'h'), t0 + pd.Timedelta(200, 'h')], 'values': [1., 2.]}
+    return [eao.assets.SimpleContract(name='buy', nodes=A, price='p', min_cap=-3., max_cap=3., wacc=rng.choice([0., 0.1])),
+            eao.assets.SimpleContract(name='sell', nodes=A, price='q', min_cap=-1., max_cap=caps, wacc=rng.choice([0., 0.3])),
+            eao.assets.Storage(name='sto', nodes=A, size=3., cap_in=1., cap_out=1., eff_in=0.9, wacc=rng.choice([0., 0.05]), no_simult_in_out=rng.random() < 0.3),
+            eao.assets.Transport(name='tr', nodes=[A, B], min_cap=0., max_cap=2., efficiency=0.9, wacc=rng.choice([0., 0.2])),
+            eao.assets.SimpleContract(name='load', nodes=B, min_cap=-1., max_cap=-1., start=t0 + pd.Timedelta(rng.choice([0, 5]), 'h'))]
+
+
+def _grids(eao):
+    t0 = pd.Timestamp('2021-01-01')
+    return {'G1': lambda: eao.assets.Timegrid(t0, t0 + pd.Timedelta(24, 'h'), freq='h'),
+            'G2': lambda: eao.assets.Timegrid(t0, t0 + pd.Timedelta(36, 'h'), freq='h', timezone='CET'),
+            'G3': lambda: eao.assets.Timegrid(t0 + pd.Timedelta(6, 'h'), t0 + pd.Timedelta(30, 'h'), freq='2h', main_time_unit='d')}
+
+
+def _prices(tg, k):
+    return {'p': (np.arange(tg.T) * (k + 1)) % 7 + 1., 'q': 9. - (np.arange(tg.T) * (k + 2)) % 5}
+
+
+def check_history(case):
+    """C10: after any history of set-up / optimise / serialise calls the problem built for (grid, prices) equals the
+    problem fresh objects build; user dictionaries still work"""
+    import copy
+    from .serial import problem_signature
+    eao = eao_mod()
+    out = []
+    rng = random.Random(case['hseed'])
+    grids = _grids(eao)
+    assets = _hist_assets(eao, rng)
+    pf = eao.portfolio.Portfolio(assets)
+    shared = {k: g() for k, g in grids.items()} if case['share_grid_objects'] else None
+    try:
+        for step, (gname, action) in enumerate(case['history']):
+            tg = shared[gname] if shared else grids[gname]()
+            pr = _prices(tg, step)
+            if action == 'portfolio':
+                op = pf.setup_optim_problem(pr, tg)
+            elif action == 'single':
+                op = assets[step % len(assets)].setup_optim_problem(pr, tg)
+            elif action == 'optimize':
+                op = pf.setup_optim_problem(pr, tg)
+                res = op.optimize()
+                if not isinstance(res, str):
+                    eao.io.extract_output(pf, op, res, pr)
+            elif action == 'json':
+                eao.serialization.to_json(pf)
+        gname = case['final']
+        tg = shared[gname] if shared else grids[gname]()
+        pr = _prices(tg, 7)
+        got = problem_signature(pf.setup_optim_problem(pr, tg))
+        rng2 = random.Random(case['hseed'])
+        fresh = eao.portfolio.Portfolio(_hist_assets(eao, rng2))
+        tgf = grids[gname]()
+        want = problem_signature(fresh.setup_optim_problem(_prices(tgf, 7), tgf))
+        if got != want:
+            out.append(fail('C10.history.same_problem_as_fresh_objects', 'portfolio:Portfolio.setup_optim_problem', case, dict(case), 'problem after the history differs from the problem of fresh objects'))
+    except Exception as e:
+        out.append(fail('C10.history.no_breakage', 'portfolio:Portfolio.setup_optim_problem', case, dict(case), f'{type(e).__name__}: {str(e)[:200]}'))
+    return out
+
+
+def check_output_history(case):
+    """C04 / C10: output extraction does not depend on which other problems were set up / extracted with the same asset
+    objects in between"""
+    eao = eao_mod()
+    out = []
+    rng = random.Random(case['hseed'])
+    assets = _hist_assets(eao, rng)
+    tg = _grids(eao)['G1']()
+    pr = _prices(tg, 1)
+    extra = eao.assets.SimpleContract(name='extra', nodes=assets[0].nodes[0], price='q', min_cap=-1., max_cap=1., extra_costs=0.2)
+    pf1 = eao.portfolio.Portfolio(assets)
+    pf2 = eao.portfolio.Portfolio([extra] + assets)
+    op1 = pf1.setup_optim_problem(pr, tg)
+    op2 = pf2.setup_optim_problem(pr, tg)
+    r1, r2 = op1.optimize(), op2.optimize()
+    if isinstance(r1, str) or isinstance(r2, str):
+        return out
+    o1 = eao.io.extract_output(pf1, op1, r1, pr)
+    o2 = eao.io.extract_output(pf2, op2, r2, pr)
+    for name, (o, op, r) in (('first', (o1, op1, r1)), ('second', (o2, op2, r2))):
+        tot = float(o['DCF'].sum().sum())
+        if abs(tot - r.value) > 1e-5 * max(1, abs(r.value)):
+            out.append(fail('C04.total.value_equals_sum_of_dcf', 'io:extract_output', case, dict(case), f'{name} problem: value {r.value} != DCF total {tot}'))
+        m = op.mapping
+        for a in o['DCF'].columns:
+            idx = sorted(set(int(i) for i in m.index[m['asset'] == a]))
+            own = -float(np.sum(op.c[idx] * r.x[idx]))
+            if abs(float(o['DCF'][a].sum()) - own) > 1e-5 * max(1, abs(own)):
+                out.append(fail('C04.perasset.dcf_equals_cost_of_own_variables', 'io:extract_output', case, dict(case), f'{name} problem, asset {a}: DCF {o["DCF"][a].sum()} != -c.x of own variables {own}'))
+                break
+    return out
+
+
+def check_optimize_history(case):
+    """C03 / C10: optimising twice (e.g. a relaxed run first) does not change what the second run solves"""
+    eao = eao_mod()
+    out = []
+    rng = random.Random(case['hseed'])
+    A = eao.assets.Node('A')
+    T = 6
+    tg = eao.assets.Timegrid(pd.Timestamp('2021-01-01'), pd.Timestamp('2021-01-01') + pd.Timedelta(T, 'h'), freq='h')
+    price = np.array([rng.choice([-4., -1., 2., 5., 8.]) for _ in range(T)])
+    assets = [eao.assets.Storage(name='s', nodes=A, size=3., cap_in=1., cap_out=1., eff_in=0.8, no_simult_in_out=True),
+              eao.assets.SimpleContract(name='m', nodes=A, price='p', min_cap=-5., max_cap=5.)]
+    pf = eao.portfolio.Portfolio(assets)
+    op = pf.setup_optim_problem({'p': price}, tg)
+    before = op.mapping.copy()
+    first = op.optimize(make_soft_problem=case['soft_first'])
+    second = op.optimize()
+    fresh = eao.portfolio.Portfolio(assets).setup_optim_problem({'p': price}, tg).optimize()
+    if not before.equals(op.mapping):
+        out.append(fail('C03.frame.mapping_not_modified_by_optimize', 'optimization:OptimProblem.optimize', case, dict(case), 'optimize changed the mapping of the problem'))
+    if isinstance(second, str) != isinstance(fresh, str) or (not isinstance(second, str) and abs(second.value - fresh.value) > 1e-5 * max(1, abs(fresh.value))):
+        out.append(fail('C03.history.second_run_equals_fresh_run', 'optimization:OptimProblem.optimize', case, dict(case), f'second run {getattr(second, "value", second)} vs fresh {getattr(fresh, "value", fresh)}'))
+    if not isinstance(second, str):
+        m = op.mapping
+        bools = sorted(set(int(i) for i in m.index[m['bool'] == True])) if 'bool' in m else []
+        frac = [j for j in bools if min(abs(second.x[j]), abs(second.x[j] - 1)) > 1e-6]
+        if frac:
+            out.append(fail('C03.bools.flagged_variables_integral', 'optimization:OptimProblem.optimize', case, dict(case), f'boolean variables fractional in the solution: {frac[:5]}'))
+    return out
